@@ -510,7 +510,7 @@ pub fn c11_graph(out: &mut Out, ag: &AG, rng: &mut Rng) {
 
 // ------------------------------------------------------------------------------------------ C12
 
-fn elements_json<N: Into<i64> + Copy, E: EW>(it: impl Iterator<Item = petgraph::data::Element<N, E>>) -> Value {
+fn elements_json<N: Into<i64> + Copy, E: EW>(it: impl Iterator<Item = petgraph::data::Element<N, E>>, wmap: &std::collections::HashMap<i64, i64>) -> Value {
     let mut nodes = vec![];
     let mut edges = vec![];
     let mut order_ok = true;
@@ -518,7 +518,9 @@ fn elements_json<N: Into<i64> + Copy, E: EW>(it: impl Iterator<Item = petgraph::
         match el {
             petgraph::data::Element::Node { weight } => {
                 if !edges.is_empty() { order_ok = false; }
-                nodes.push(weight.into());
+                // node weights identify the abstract nodes (GraphMap: the key is the weight)
+                let w: i64 = weight.into();
+                nodes.push(*wmap.get(&w).unwrap_or(&-1));
             }
             petgraph::data::Element::Edge { source, target, weight } => edges.push(json!([source, target, weight.to_i64()])),
         }
@@ -534,15 +536,17 @@ where
 {
     // the node order the stream must follow
     f.insert("nord".into(), okv(json!(g.node_references().map(|r| inv[&r.id()]).collect::<Vec<_>>())));
-    f.insert("mst".into(), run(|| elements_json(algo::min_spanning_tree(g))));
+    let wmap: std::collections::HashMap<i64, i64> = g.node_references().map(|r| (*r.weight() as i64, inv[&r.id()] as i64)).collect();
+    f.insert("mst".into(), run(|| elements_json(algo::min_spanning_tree(g), &wmap)));
 }
-fn c12_prim<G>(g: G, f: &mut Fields)
+fn c12_prim<G>(g: G, inv: &std::collections::HashMap<G::NodeId, usize>, f: &mut Fields)
 where
     G: IntoNodeReferences + IntoEdgeReferences + IntoEdges + NodeIndexable + Copy + Data<NodeWeight = i32>,
     G::EdgeWeight: EW,
     G::NodeId: Eq + std::hash::Hash,
 {
-    f.insert("prim".into(), run(|| elements_json(algo::min_spanning_tree_prim(g))));
+    let wmap: std::collections::HashMap<i64, i64> = g.node_references().map(|r| (*r.weight() as i64, inv[&r.id()] as i64)).collect();
+    f.insert("prim".into(), run(|| elements_json(algo::min_spanning_tree_prim(g), &wmap)));
 }
 
 pub fn c12_graph(out: &mut Out, ag: &AG, rng: &mut Rng) {
@@ -556,7 +560,7 @@ pub fn c12_graph(out: &mut Out, ag: &AG, rng: &mut Rng) {
         let mut f = Fields::new();
         if big_tree { f.insert("tree".into(), json!(true)); }
         c12_kruskal(&$g, &$inv, &mut f);
-        if und && $prim { c12_prim(&$g, &mut f); }
+        if und && $prim { c12_prim(&$g, &$inv, &mut f); }
         f
     }}}
     if big_tree {
@@ -564,7 +568,7 @@ pub fn c12_graph(out: &mut Out, ag: &AG, rng: &mut Rng) {
     } else if rng.chance(1, 3) {
         each_enc!(out, "C12", ag, rng, f64, [graph, stable, csr, graph_nan], |g, _fwd, inv| body!(g, inv, true));
     } else {
-        each_enc!(out, "C12", ag, rng, [graph, stable, csr], |g, _fwd, inv| body!(g, inv, true));
+        each_enc!(out, "C12", ag, rng, [graph, stable, csr, map, matrixd, matrixu], |g, _fwd, inv| body!(g, inv, true));
     }
 }
 
